@@ -481,8 +481,12 @@ theorem pb_convertDone {k : Nat} (s : St) (st : Started) (h : PB k s) :
     · refine { hs' with upd := SB_union hs'.upd (hs x hx), tags := all_map hs'.tags _ ?_ }
       intro p hp
       split
-      · exact hp
-      · exact ⟨SB_union hp.1 (hs x hx), hp.2⟩
+      · split
+        · exact hp
+        · exact ⟨SB_range hs'.all, hp.2⟩
+      · split
+        · exact hp
+        · exact ⟨SB_union hp.1 (hs x hx), hp.2⟩
 
 theorem pb_markAdd {k : Nat} (s : St) (st : Started) (name : String) (ids : List Nat) (h : PB k s) :
     PB k (step s (.markAdd name ids) st).1 := by
@@ -555,12 +559,13 @@ theorem pb_addTag {k : Nat} (s : St) (st : Started) (name color defn : String) (
             · exact h
             · simp only []
               refine PB_foldl _ (fun s r hs => PB_addRefBy s r name hs) _ _ ?_
+              have h' : PB k { s with ngen := s.ngen + 1 } := h.congr rfl rfl rfl rfl rfl rfl rfl rfl rfl
               cases isMark
               · simp only [Bool.false_eq_true, if_false]
                 apply PB_startTagging
-                exact h.withTag _ _ ⟨SB_range h.all, SB_nil k⟩
+                exact h'.withTag _ _ ⟨SB_range h.all, SB_nil k⟩
               · simp only [if_true]
-                exact h.withTag _ _ ⟨SB_nil k, SB_ofList hf⟩
+                exact h'.withTag _ _ ⟨SB_nil k, SB_ofList hf⟩
 
 theorem pb_updQuery {k : Nat} (s : St) (st : Started) (name defn : String) (f : Facts) (h : PB k s) :
     PB k (step s (.updQuery name defn f) st).1 := by
